@@ -1,6 +1,8 @@
 HOOK_COMMITS = ["d5fe92d", "HEAD~0 (see git log --grep='verif hooks' in /repo)"]
 
 ENGINES = [
+    {"name": "crashx", "path": "harness/crashx", "serves_properties": ["C04"],
+     "kind_free_text": "crash-point enumerator: libc write-path interposition in the harness executable, kill before the N-th database call for all N, recovery and continuation oracles"},
     {"name": "schedx", "path": "harness/schedx", "serves_properties": ["C05", "C06", "C16"],
      "kind_free_text": "stateless DFS over thread schedules with iterative context bounding: a cooperative scheduler interposes pthread mutex/cond/"
                        "create/join in the harness executable, one forked execution of the real engine / execution queues per schedule"},
@@ -60,6 +62,14 @@ TEXT = {
 }
 
 TEXT.update({
+    "C04": {"design_ref": "DESIGN.md §4.4, §5 C04",
+            "technique": "exhaustive crash-point enumeration: the process is killed before every libc call that touches the database or its journal, then recovery + continuation on the real code",
+            "text": "For 8 worlds x 4 (8 thorough) histories on the real engine with the real SQLite BuildDB, a forked child runs the history and _exit()s immediately "
+                    "before the N-th open-for-write/pwrite/write/fsync/fdatasync/ftruncate/unlink on the database, its journal or directory, for every N (including "
+                    "schema creation); the parent then opens the file with a fresh BuildDB (stored epoch >= every result epoch, every dependency resolves, every stored "
+                    "record is one the engine handed over with the dependency list of the same execution, PRAGMA integrity_check ok) and runs 6 (12) continuation "
+                    "histories whose every build must succeed with the clean-build value, including worlds whose output cells the killed build had already rewritten.",
+            "note": "Process death only (writes already issued persist); power loss / torn sectors are not claimed by the property."},
     "C11": {"design_ref": "DESIGN.md §5 C11",
             "technique": "bounded-exhaustive enumeration of dependency files (all path strings over the format's special characters x layouts, all truncations) on the real parsers under ASan",
             "text": "All path strings up to length 4 (6 thorough) over {a,' ','#','$','\\',':','/','.'} and pairs of them, rendered with the documented escaping into "
@@ -105,7 +115,6 @@ TEXT.update({
 })
 
 NOT_APPLICABLE = {
-    "C04": "check under construction in this round (crash-point enumerator crashx, DESIGN.md §4.4); not yet registered",
     "C08": "check under construction (worldx on-disk history explorer, DESIGN.md §4.5); not yet registered",
     "C09": "check under construction (worldx + signature enumerator); not yet registered",
     "C10": "check under construction (worldx failure-subset enumerator); not yet registered",
